@@ -377,7 +377,7 @@ Definition other_number_ranges : list (N * N) :=
   [(178, 179); (185, 185); (188, 190); (8304, 8304); (8308, 8313); (8320, 8329); (8528, 8543); (9312, 9371); (10102, 10131)]%N.
 Definition rust_alpha_cp (cp : N) : bool := in_ranges cp id_start_ranges.
 Definition rust_alnum_cp (cp : N) : bool :=
-  in_ranges cp id_start_ranges || in_ranges cp [(1632, 1641); (2406, 2415); (65296, 65305)]%N || in_ranges cp other_number_ranges.
+  in_ranges cp id_start_ranges || in_ranges cp [(1632, 1641); (2366, 2380); (2406, 2415); (65296, 65305)]%N || in_ranges cp other_number_ranges.
 Definition rust_ident_name (k : str) : bool := is_ts_identifier k && uni_walk rust_alpha_cp rust_alnum_cp true k.
 Definition key_chunk (k : str) : chunk := if rust_ident_name k then Hole HKey k else Hole (HStr DQ) (escape_js k).
 (* ts_key(member=true): .name or ["na-me"] *)
